@@ -7,6 +7,7 @@ CONSTANTS
   QSize = 1
   MaxNow = 6
   KF_C10_LostHandoff = FALSE
+  KF_Overtake = FALSE
   TtlPeek = FALSE
   Driver = FALSE
   KeepHist = TRUE
